@@ -82,6 +82,9 @@ func (c *Ctx) Rand(idx int) *gen.Rand { return gen.For(c.Seed, c.Check, idx) }
 // Idx returns the index of the running case.
 func (c *Ctx) Idx() int { return c.idx }
 
+// MemTotal is the memory the Go runtime holds for this process.
+func MemTotal() uint64 { return memTotal() }
+
 func memTotal() uint64 {
 	s := []metrics.Sample{{Name: "/memory/classes/total:bytes"}}
 	metrics.Read(s)
